@@ -42,7 +42,7 @@ def cases(tier, seed):
         k += 1
     na = {"quick": 260, "thorough": 8000}[tier]
     for b in range(na):
-        out.append({"mode": "random", "seed": [seed, 66, k]})
+        out.append({"mode": "random", "seed": [seed, 66, k], "bj": b % 32 == 5})
         k += 1
     return out
 
@@ -82,20 +82,15 @@ def judge_schedule(betas, opts, res, where, viol, counters):
             viol.append({"mech": "C06/min-step-not-honoured", "detail": f"{where}: increment {nonfinal[i]!r} < min_step {ms}"})
 
 
-def run_case(case):
-    from collections import Counter
-
-    counters = Counter({k: 0 for k in REQUIRED_COUNTERS})
-    viol = []
-    g = np.random.default_rng(case["seed"])
-    xpn = str(g.choice(["numpy", "numpy", "numpy", "torch", "jax"]))
-    sampler = str(g.choice(["smc", "smc", "smc", "emcee_smc"]))
+def draw_opts(g, sampler, fixed_n=None):
+    """Schedule options of one run (also used for further runs on the same sampler object)."""
     opts = {}
-    if case["mode"] == "fixed":
-        opts = {"adaptive": False, "n_steps": case["n_steps"]}
+    xp_hint = None
+    if fixed_n is not None:
+        opts = {"adaptive": False, "n_steps": fixed_n}
         if g.random() < 0.15:
             opts["n_final_samples"] = int(g.integers(2, 40))
-        xpn = "numpy" if case["n_steps"] > 40 else xpn
+        xp_hint = "numpy" if fixed_n > 40 else None
     else:
         if g.random() < 0.25:
             opts = {"adaptive": False, "n_steps": int(g.integers(1, 60))}
@@ -120,7 +115,33 @@ def run_case(case):
         opts["sampler_kwargs"] = {"n_steps": 1}
     else:
         opts["sampler_kwargs"] = {"nsteps": 1, "progress": False}
+    return opts, xp_hint
+
+
+def run_case(case):
+    from collections import Counter
+
+    counters = Counter({k: 0 for k in REQUIRED_COUNTERS})
+    viol = []
+    g = np.random.default_rng(case["seed"])
+    xpn = str(g.choice(["numpy", "numpy", "numpy", "torch", "jax"]))
+    sampler = str(g.choice(["smc", "smc", "smc", "emcee_smc"]))
+    opts, xp_hint = draw_opts(g, sampler, case["n_steps"] if case["mode"] == "fixed" else None)
+    xpn = xp_hint or xpn
     scripted = bool(g.random() < 0.7)
+    if case.get("bj"):
+        scripted = False
+        # the third SMC variant shares the tempering loop; its kernel needs jax (a handful per tier: jit compilation is slow)
+        import jax
+
+        sampler, xpn = "blackjax_smc", "jax"
+        for k in ("min_step", "max_n_steps"):
+            opts.pop(k, None)
+        opts["rng_key"] = jax.random.key(int(g.integers(2**31)))
+        opts["rng"] = np.random.default_rng(int(g.integers(2**31)))
+        opts["sampler_kwargs"] = {"algorithm": "rwmh", "n_steps": 1, "sigma": 0.3}
+        if "n_steps" in opts:
+            opts["n_steps"] = min(opts["n_steps"], 8)
     rec = smcrun.Recorder(abort_on_stall=True, keep_vectors=False)
     if scripted:
         n = int(np.exp(g.uniform(np.log(2), np.log(500))))
@@ -130,43 +151,68 @@ def run_case(case):
         dtn = str(g.choice(["float64", "float64", "float32"]))
         sc = smcrun.Scripted(ll, lq=g.normal(0, 1, n), xp_name=xpn, dtype=dtn)
         where = f"scripted kind={kind} spread={spread:.3g} N={n} xp={xpn} {dtn} sampler={sampler}"
-        res = smcrun.run(sc.aspire(), n, sampler, dict(opts), identity=True, max_calls=20000, rec=rec)
+        sc.aspire_obj = sc.aspire()
+        res = smcrun.run(sc.aspire_obj, n, sampler, dict(opts), identity=True, max_calls=20000, rec=rec)
         sig = f"scripted|{sampler}|{int(np.log10(spread))}|{int(np.log10(n))}"
     else:
         sigma = float(10 ** g.uniform(-4, 0))
         d = int(g.integers(1, 3))
         t = Target([Coord("box", -5.0, 5.0, float(g.uniform(-2, 2)), sigma) for _ in range(d)])
         n = int(g.integers(8, 120))
+        if sampler == "blackjax_smc":
+            sigma, n = max(sigma, 0.05), min(n, 32)
+            t = Target([Coord("box", -5.0, 5.0, float(g.uniform(-2, 2)), sigma) for _ in range(d)])
         a, _ = make_aspire(t, xpn, seed=int(g.integers(1000)), flow_kwargs=dict(family="tgauss", loc=[0.0] * d, scale=[2.0] * d, lower=[-5.0] * d, upper=[5.0] * d, fixed=True))
         where = f"moving sigma={sigma:.3g} d={d} N={n} xp={xpn} sampler={sampler}"
         res = smcrun.run(a, n, sampler, dict(opts), identity=False, max_calls=20000, rec=rec)
         sig = f"moving|{sampler}|{int(np.log10(sigma))}|{int(np.log10(n))}"
-    shown = {k: v for k, v in opts.items() if k not in ("rng", "sampler_kwargs")}
-    where += f" opts={shown}"
-    counters["runs"] += 1
-    counters["adaptive_runs" if opts.get("adaptive", True) else "fixed_runs"] += 1
-    counters["runs_with_cap"] += int("max_n_steps" in opts)
-    counters["runs_with_floor"] += int("min_step" in opts)
-    counters["kernel_calls"] += res.kernel_calls
     inconclusive = []
-    betas = [float(to_np(b)) for b in (getattr(res.history, "beta", None) or [])]
-    if res.exc is not None:
-        if isinstance(res.exc, smcrun.StallDetected) or rec.stall is not None:
-            viol.append({"mech": "C06/stall-beta-does-not-increase", "detail": f"{where}: {rec.stall} after betas {betas[-3:]}"})
-        elif type(res.exc).__name__ == "WatchdogExceeded":
-            if len(betas) >= 2 and (np.diff(betas) <= 0).any():
-                viol.append({"mech": "C06/stall-beta-does-not-increase", "detail": f"{where}: watchdog with repeated beta"})
-            else:
-                inconclusive.append(f"watchdog fired without stall witness: {where} betas[-3:]={betas[-3:]}")
-        else:
-            import traceback
 
-            tb = traceback.extract_tb(res.exc.__traceback__)
-            fr = [f for f in tb if "/aspire/" in f.filename]
-            loc = f"{fr[-1].filename.split('/aspire/')[-1]}:{fr[-1].name}" if fr else "?"
-            viol.append({"mech": f"C06/run-raises-{res.exc_type}", "detail": f"{where}: {res.exc_type} at {loc}: {str(res.exc)[:160]}"})
-    else:
-        judge_schedule(betas, opts, res, where, viol, counters)
+    def judge(res, rec, opts, where):
+        shown = {k: v for k, v in opts.items() if k not in ("rng", "rng_key", "sampler_kwargs")}
+        where += f" opts={shown}"
+        counters["runs"] += 1
+        counters["adaptive_runs" if opts.get("adaptive", True) else "fixed_runs"] += 1
+        counters["runs_with_cap"] += int("max_n_steps" in opts)
+        counters["runs_with_floor"] += int("min_step" in opts)
+        counters["kernel_calls"] += res.kernel_calls
+        betas = [float(to_np(b)) for b in (getattr(res.history, "beta", None) or [])]
+        if res.exc is not None:
+            if isinstance(res.exc, smcrun.StallDetected) or rec.stall is not None:
+                viol.append({"mech": "C06/stall-beta-does-not-increase", "detail": f"{where}: {rec.stall} after betas {betas[-3:]}"})
+            elif type(res.exc).__name__ == "WatchdogExceeded":
+                if len(betas) >= 2 and (np.diff(betas) <= 0).any():
+                    viol.append({"mech": "C06/stall-beta-does-not-increase", "detail": f"{where}: watchdog with repeated beta"})
+                else:
+                    inconclusive.append(f"watchdog fired without stall witness: {where} betas[-3:]={betas[-3:]}")
+            else:
+                import traceback
+
+                tb = traceback.extract_tb(res.exc.__traceback__)
+                fr = [f for f in tb if "/aspire/" in f.filename]
+                loc = f"{fr[-1].filename.split('/aspire/')[-1]}:{fr[-1].name}" if fr else "?"
+                viol.append({"mech": f"C06/run-raises-{res.exc_type}", "detail": f"{where}: {res.exc_type} at {loc}: {str(res.exc)[:160]}"})
+        else:
+            judge_schedule(betas, opts, res, where, viol, counters)
+        return shown, betas
+
+    counters["blackjax_runs"] += int(sampler == "blackjax_smc")
+    shown, betas = judge(res, rec, opts, where)
+    where += f" opts={shown}"
+    # further fresh runs on the very same sampler object with newly drawn schedule options: options of an earlier run
+    # (ramp / scalar target, caps, floors, fixed / adaptive) must not leak into the next one
+    if case["mode"] != "fixed" and sampler in ("smc", "emcee_smc") and res.exc is None and g.random() < 0.35:
+        asp = sc.aspire_obj if scripted else a
+        for rep in range(int(g.integers(1, 3))):
+            opts2, _ = draw_opts(g, sampler)
+            if "n_steps" in opts2:
+                opts2["n_steps"] = min(opts2["n_steps"], 12)
+            rec2 = smcrun.Recorder(abort_on_stall=True, keep_vectors=False)
+            res2 = smcrun.run_again(asp, n, dict(opts2), identity=scripted, max_calls=20000, rec=rec2)
+            counters["runs_on_a_reused_sampler"] += 1
+            judge(res2, rec2, opts2, f"{where} THEN run #{rep + 2} on the same sampler object")
+            if res2.exc is not None:
+                break
     optsig = "|".join(f"{k}" for k in sorted(shown))
     nontrivial = [f"{sig}|{optsig}|{len(betas)}"] if len(betas) >= 2 else []
     seen = {}
